@@ -434,6 +434,9 @@ func runSign(seed int64, n int, out *bufio.Writer, thorough bool) *signStats {
 					kb[i] = byte(r.Intn(256))
 				}
 				lk, _ := enc.NewSecretbox(kb)
+				for i := range kb {
+					kb[i] = 0 // the key buffer is wiped after construction: the SharedKey must own its bytes
+				}
 				ioK = io.ApplyOptions(&cbor.Options{LinkKey: lk})
 				data := &entry.Entry{Payload: cloneBytes(e.GetPayload()), LogID: string(logID), Next: next, Refs: refs,
 					Clock: entry.CopyLamportClock(e.GetClock()), AdditionalData: add}
